@@ -52,6 +52,8 @@ def run(ctx):
     c02.run_for(ctx, "C20", num_quick=60, num_thorough=1500, check_bytes=False)
     # recordings onto existing RAW: the reported length / totals describe the clamped number of blocks (InputMode.tla)
     c14.run_for(ctx, "C20", num_quick=60, num_thorough=400)
+    # real record() executions at realistic sizes validated as traces (request sizes, clock advance per request, block count)
+    c02.trace_leg(ctx, "C20", with_repo_tests=not ctx.quick())
     ctx.notes["rule"] = ("configurations (rate, branches, taps, channels, antennas, pols, bits, block multiplier, blocks) from "
                          "Accounting.tla with exact expectations (12 durations each, 3 fine-channelisation cases, one recording "
                          "by duration) + Backend.tla recordings; distinct = distinct configurations")
